@@ -569,6 +569,9 @@ func (d *Decoder) rawRead(tagType byte) error {
 		if err != nil {
 			return err
 		}
+		if aryLen < 0 {
+			return errors.New("nbt: negative array length")
+		}
 
 		if _, err = io.CopyN(io.Discard, d.r, int64(aryLen)); err != nil {
 			return err
@@ -577,6 +580,9 @@ func (d *Decoder) rawRead(tagType byte) error {
 		aryLen, err := d.readInt32()
 		if err != nil {
 			return err
+		}
+		if aryLen < 0 {
+			return errors.New("nbt: negative array length")
 		}
 		for i := 0; i < int(aryLen); i++ {
 			if _, err := d.readInt32(); err != nil {
@@ -588,6 +594,9 @@ func (d *Decoder) rawRead(tagType byte) error {
 		aryLen, err := d.readInt32()
 		if err != nil {
 			return err
+		}
+		if aryLen < 0 {
+			return errors.New("nbt: negative array length")
 		}
 		for i := 0; i < int(aryLen); i++ {
 			if _, err := d.readInt64(); err != nil {
@@ -603,6 +612,9 @@ func (d *Decoder) rawRead(tagType byte) error {
 		listLen, err := d.readInt32()
 		if err != nil {
 			return err
+		}
+		if listLen < 0 {
+			return errors.New("nbt: negative list length")
 		}
 		for i := 0; i < int(listLen); i++ {
 			if err := d.rawRead(listType); err != nil {
